@@ -55,6 +55,9 @@ PATHS = [
 ATTR_PATHS = [("ST", "f"), ("ST", "g"), ("RV", "x"), ("RV", "y"), ("EV", "value"), ("NEST['t'][1]", "f")]
 
 ARGS = ["", "9", "1", "0", "[9]", "{9: 9}", "9, 9", "1, 9", "set([9])", "[(9, 9)]", "-1", "2", '"k"', '"a"', "(2, 3)"]
+SHAPE_VARIANTS = {"list": ["y.extend([])", "y.extend(y)", "h[0] += []", "h[0] += h[0]", "h[0] += y", "y.remove(12345) if False else y.extend(())"],
+                  "dict": ["y.update({})", "y.update(y)", "h[0] |= {}", "h[0] |= h[0]", "h[0] |= y", "y.update()", "y.setdefault(list(y.keys())[0]) if y else y.update([])"],
+                  "set": ["y.update([])", "y.update(y)", "y.discard(12345)", "y.difference_update([])"]}
 STMT_FORMS = ["y[0] = 9", "y[1] = 9", "y[9] = 9", 'y["k"] = 9', 'y["z"] = 9', "h[0] += [9]", "h[0] |= {9: 9}", "h[0] |= set([9])",
               "y[0] += 1", "y[1] += [1]", 'y["k"] += [1]']
 FRESH = {"list": "[1, [2], 3]", "dict": '{"k": [1], 2: 3, "a": 4}', "set": 'set([1, "a", (2, 3)])'}
@@ -121,6 +124,17 @@ def run(tier):
     add("preserve-loaded", {"libs": lib, "steps": [ld + obs]}, None)
     add("preserve-reexport", {"libs": lib + [["mid.star", ld + "W = [L, D, ST]\n"]],
                               "steps": ['load("mid.star", ' + ", ".join(f'"{n}"' for n in allnames) + ', "W")\n' + obs + "emit(W)\n"]}, None)
+    # (1b) closures created in module B by a factory from frozen module A (reading A's globals), retained in B, called after B froze
+    FACT = ('GREET = ["hello", "from", "lib"]\nCOUNT = [0]\nK = 7\ndef mkf(name):\n    def inner():\n        return (name, GREET, K)\n    return inner\n'
+            'def mkl(n):\n    return lambda q = None: [n, GREET[0], q, K]\ndef mkdeep(a):\n    def l1():\n        def l2():\n            return [a, GREET, K]\n        return l2\n    return l1\n')
+    MID = ('load("fact.star", "mkf", "mkl", "mkdeep")\nK = "B-slot"\nGREET = {"user": "slot B"}\nCOUNT = "B"\nCF = mkf("bob")\nCF2 = mkf([1, 2])\nCL = mkl(5)\nCD = mkdeep("d")()\n'
+           'def usecf():\n    return [CF(), CL(1)]\nHOLD = [CF, {"k": CL}, (CD,)]\n')
+    OBS2 = 'emit(CF())\nemit(CF2())\nemit(CL())\nemit(CL(3))\nemit(CD())\nemit(usecf())\nemit(HOLD[0]())\nemit(HOLD[1]["k"]())\nemit(HOLD[2][0]())\n'
+    add("closure-inside", {"libs": [["fact.star", FACT]], "steps": [MID + OBS2]}, None)
+    add("closure-loaded", {"libs": [["fact.star", FACT], ["mid.star", MID]],
+                           "steps": ['load("mid.star", "CF", "CF2", "CL", "CD", "usecf", "HOLD")\n' + OBS2]}, None)
+    add("closure-loaded2", {"libs": [["fact.star", FACT], ["mid.star", MID], ["mid2.star", 'load("mid.star", "CF", "CF2", "CL", "CD", "usecf", "HOLD")\nK = 0\nGREET = 0\n']],
+                            "steps": ['load("mid2.star", "CF", "CF2", "CL", "CD", "usecf", "HOLD")\nK = 1\nGREET = 1\n' + OBS2]}, None)
     # (2) immutability: every discovered mutator on every path; value unchanged afterwards
     for path, kind in PATHS:
         lines = [ld, f"y = {path}\nh = [y]\nemit(y)\n"]
@@ -135,6 +149,16 @@ def run(tier):
         body = "".join(f"    emit(fails(lambda: {form}))\n" for form, is_stmt in muts[kind] if not is_stmt)
         add("immutable", {"libs": lib, "steps": [ld + f"y = {path}\nh = [y]\nemit(y)\ndef go():\n{body}go()\nemit(y)\nemit({path})\n"]},
             (path, kind, [f for f, s in muts[kind] if not s]))
+    # no-op spellings of mutating operations (self-alias, empty argument): the operation is a mutation attempt whatever its argument
+    for path, kind in PATHS:
+        lines = [ld, f"y = {path}\nh = [y]\nemit(y)\n"]
+        forms = SHAPE_VARIANTS[kind]
+        for k, form in enumerate(forms):
+            is_stmt = form.startswith("h[0]")
+            body = f"    {form}\n" if is_stmt else f"    return {form}\n"
+            lines.append(f"def m{k}():\n{body}emit(fails(m{k}))\n")
+        lines.append(f"emit(y)\nemit({path})\n")
+        add("immutable", {"libs": lib, "steps": ["".join(lines)]}, (path, kind, forms))
     for base, attr in ATTR_PATHS:
         add("immutable-attr", {"libs": lib, "steps": [ld + f"y = {base}\nemit(y)\ndef m():\n    y.{attr} = 9\nemit(fails(m))\n"
                                                            f"def m2():\n    y.zz = 9\nemit(fails(m2))\nemit(y)\n"]}, (base, attr))
@@ -169,6 +193,11 @@ def run(tier):
         errs = [l["err"] for l in o["libs"] if l["err"]] + [st["err"] for st in o["steps"] if st["err"]]
         out = [x for l in o["libs"] for x in l["out"]] + [x for st in o["steps"] for x in st["out"]]
         distinct.add(tuple(out))
+        if kind.startswith("closure"):
+            if errs:
+                res.violation(f"C04:{kind}:error", {"spec": s, "err": errs[0]})
+            pres[kind] = (out, None)
+            continue
         if kind.startswith("preserve"):
             if errs:
                 res.violation(f"C04:{kind}:error", {"spec": s, "err": errs[0]})
@@ -219,6 +248,15 @@ def run(tier):
             checks += 1
             if fz is None or fz.get(n) != a[2 * i]:
                 res.violation(f"C04:not-preserved-api:{n}", {"export": n, "before_freeze": a[2 * i], "get_owned": fz and fz.get(n)})
+    if "closure-inside" in pres:
+        a = pres["closure-inside"][0]
+        for k2 in ("closure-loaded", "closure-loaded2"):
+            b = pres.get(k2, (None,))[0]
+            checks += 1
+            if b is not None and a != b:
+                i = next((i for i, (x, y) in enumerate(zip(a, b)) if x != y), min(len(a), len(b)))
+                res.violation(f"C04:closure-changed-by-freeze:{k2}", {"call_index": i, "before_freeze": a[i] if i < len(a) else None,
+                                                                     "after_freeze": b[i] if i < len(b) else None})
     for path, d in reads.items():
         if "reads-inside" in d and "reads-loaded" in d:
             ops, a = d["reads-inside"]
